@@ -125,6 +125,8 @@ theorem aluModel_conc {c : Cpu} (hc : CWF c) (k y v : Nat) (hv : v < 256) :
   · exact opXor_conc hc k v hv
   · exact opOr_conc hc k v hv
   · rename_i h0 h1 h2 h3 h4 h5 h6
+    have h0 : y ≠ 0 := h0; have h1 : y ≠ 1 := h1; have h2 : y ≠ 2 := h2; have h3 : y ≠ 3 := h3
+    have h4 : y ≠ 4 := h4; have h5 : y ≠ 5 := h5; have h6 : y ≠ 6 := h6
     obtain ⟨n, rfl⟩ : ∃ n, y = n + 7 := ⟨y - 7, by omega⟩
     have : SM83.alu c (n + 7) v = SM83.alu c 7 v := rfl
     rw [this]; exact opCp_conc hc k v hv
